@@ -1,6 +1,7 @@
 package props
 
 import (
+	"math"
 	"fmt"
 	"testing"
 	"time"
@@ -39,7 +40,17 @@ type c18op struct {
 
 func genC18ops() *rapid.Generator[[]c18op] {
 	dur := rapid.Custom(func(t *rapid.T) time.Duration {
-		switch rapid.IntRange(0, 2).Draw(t, "dclass") {
+		switch rapid.IntRange(0, 11).Draw(t, "dclass") % 4 { // (0..11 mod 4: class 3 - below - only for 3, 7, 11 = a quarter; halved again there)
+		case 3:
+			// "never": the saturated timeout the library asks for in very high views (math.MaxInt64), or a century
+			// (seeded change C18n: no runtime timer armed for it, an older unread expiry stays readable)
+			if rapid.IntRange(0, 1).Draw(t, "neverhalf") == 0 {
+				return time.Duration(rapid.IntRange(1, 30).Draw(t, "ms")) * time.Millisecond
+			}
+			if rapid.IntRange(0, 3).Draw(t, "century") == 0 {
+				return 100 * 365 * 24 * time.Hour
+			}
+			return time.Duration(math.MaxInt64)
 		case 0:
 			return 0
 		case 1:
@@ -132,9 +143,16 @@ func c18Run(ops []c18op) (viol, key string, classes map[string]int, susp *c18sus
 			}
 			before := time.Now()
 			wasDue := !before.Before(s1.Add(D))
+			if D > time.Hour {
+				classes["extend_after_never"]++
+			}
 			tm.Extend(o.D)
 			after := time.Now()
-			D += o.D
+			if D > time.Duration(math.MaxInt64)-o.D {
+				D = time.Duration(math.MaxInt64) // (the sum saturates in the model)
+			} else {
+				D += o.D
+			}
 			if consumed {
 				switch {
 				case after.Before(s0.Add(D)):
@@ -172,6 +190,18 @@ func c18Run(ops []c18op) (viol, key string, classes map[string]int, susp *c18sus
 			if !have || consumed || ambiguous {
 				continue
 			}
+			if D > time.Hour {
+				// armed for "never": nothing may be readable now (an expiry left over from an earlier arming included)
+				classes["read_after_never_reset"]++
+				select {
+				case <-tm.C():
+					if m, k := check(time.Now(), fmt.Sprintf("op %d: read after a reset for %s", i, D)); m != "" {
+						return m, k, classes, nil
+					}
+				default:
+				}
+				continue
+			}
 			deadline := s1.Add(D)
 			due := deadline // the instant from which a delivery is owed: the deadline, or now if it has passed already
 			if n := time.Now(); n.After(due) {
@@ -203,7 +233,23 @@ func c18Run(ops []c18op) (viol, key string, classes map[string]int, susp *c18sus
 	return "", "", classes, susp
 }
 
-// c18Judge runs a sequence and confirms a suspected late expiry by repetition.
+// c18Noise measures what the machine does to plain runtime timers right now: the worst lateness of four 5 ms timers.
+func c18Noise() time.Duration {
+	worst := time.Duration(0)
+	for i := 0; i < 4; i++ {
+		t0 := time.Now()
+		<-time.NewTimer(5 * time.Millisecond).C
+		if l := time.Since(t0) - 5*time.Millisecond; l > worst {
+			worst = l
+		}
+	}
+	return worst
+}
+
+// c18Judge runs a sequence and confirms a suspected late expiry by repetition: three more executions must be late at
+// the same operation while plain runtime timers measured in between are NOT late (on a machine that delays every timer
+// by tens of milliseconds - a load average of 90 on 16 cores did - lateness says nothing about the timer under test:
+// not judged, counted).
 func c18Judge(ops []c18op) (string, string, map[string]int) {
 	msg, key, cl, susp := c18Run(ops)
 	if msg != "" || susp == nil {
@@ -212,11 +258,19 @@ func c18Judge(ops []c18op) (string, string, map[string]int) {
 	cl["late_suspects"]++
 	least := susp.late
 	for k := 0; k < 3; k++ {
+		if c18Noise() > c18Soft/2 {
+			cl["late_not_judged_machine_overloaded"]++
+			return "", "", cl
+		}
 		m2, _, _, s2 := c18Run(ops)
 		if m2 != "" || s2 == nil || s2.op != susp.op {
 			return "", "", cl // did not repeat
 		}
 		least = min(least, s2.late)
+	}
+	if c18Noise() > c18Soft/2 {
+		cl["late_not_judged_machine_overloaded"]++
+		return "", "", cl
 	}
 	return fmt.Sprintf("op %d: blocking read returned at least %s after latest reset + duration + extensions in each of 4 executions of the sequence (scheduling noise does not repeat)", susp.op, least), "late-expiry", cl
 }
